@@ -12,6 +12,7 @@ if [ -z "$FILES" ]; then
 fi
 TMP=$(mktemp -d /tmp/mutrun.XXXXXX)
 trap 'rm -rf "$TMP"' EXIT
+cp /verif/bin/dcpverif "$TMP/dcpverif"   # a private copy: the checker may be rebuilt while this runs
 : > "$TMP/jobs"
 for f in $FILES; do
   /verif/bin/mutgen -file /repo/$f -list | while IFS=$'\t' read -r idx kind line fn desc; do
@@ -28,7 +29,8 @@ worker() {
     /verif/bin/mutgen -file /repo/$f -apply $idx -out "$D/repo/$f"
     b=ok; t=-; fired=; rules=
     if (cd "$D/repo" && go build ./... >/dev/null 2>&1 && go vet -vettool=/bin/true ./... >/dev/null 2>&1 || go build ./... >/dev/null 2>&1); then
-      out=$(/verif/bin/dcpverif -prop all -repo "$D/repo" -out /verif -no-evidence 2>&1)
+      out=$("$TMP/dcpverif" -prop all -repo "$D/repo" -out /verif -no-evidence 2>&1)
+      [ "$(echo "$out" | grep -c " obligations, ")" -eq 20 ] || b=checker-error
       fired=$(echo "$out" | grep -oE "^VIOLATION property=C[0-9]+" | sed 's/VIOLATION property=//' | tr '\n' ' ')
       rules=$(echo "$out" | grep -E "^\s+\[(violated|undecided)\]" | sed -E 's/^\s+\[(violated|undecided)\] ([^|]+)\|.*/\2/' | sort -u | tr '\n' ' ')
       if [ -n "${MUT_NOTESTS:-}" ]; then t=-; elif (cd "$D/repo" && timeout 300 go test -vet=off -count=1 ./... >/dev/null 2>&1); then t=pass; else t=fail; fi
